@@ -477,6 +477,24 @@ func (ww *WW) StepMelt() {
 	_ = err
 }
 
+// mintInto: wallet w mints amount at its own mint (fixed scenarios need funds in a particular wallet).
+func (ww *WW) mintInto(w string, amount uint64) {
+	mint := mintNameOfURL(ww.node(w).Mint)
+	ww.op("w.mint")
+	ww.W.WalletOp(w, ww.name("mint."+w), nil, func(wl *wallet.Wallet) {
+		q, e := wl.RequestMint(amount, ww.mintURL(mint))
+		if e != nil {
+			return
+		}
+		if mq := ww.W.Book.Mint(mint).MQ[q.Quote]; mq != nil {
+			if ww.W.LN.PayExternal(mq.Hash) {
+				ww.MintedIn[mint] += amount
+			}
+		}
+		wl.MintTokens(q.Quote)
+	})
+}
+
 // StepReload: the wallet program exits and is started again on the same directory (what every
 // invocation of a command-line wallet does): everything it knows must come back from its storage.
 func (ww *WW) StepReload() {
